@@ -127,3 +127,32 @@ static inline void iora_call_CloseCallback(Impl *im, iora_fn f, SessionId sid, i
   if (G_cb_calls < 1000) G_cb_calls++;
   G_cb_sid = sid; G_cb_code = reason.code;
 }
+
+/* ---- ITransport::connectSyncCancellable: a retry loop around connectSync with sub-timeouts of at most 100 ms.
+ * connectSync is replaced by its CONTRACT (proved above, h_connect): each call either returns ok(sid) for a live session it did not close (C1/C2), or
+ * Timeout after having issued engine->close() for the id it obtained (L1/L2), or another definite error with nothing left behind (entry fence: nothing
+ * obtained; failed attempt: the engine closed it). G_open counts sessions obtained by this cancellable call that are open and not closed by it. ---- */
+typedef struct { int x; } ITransport;
+typedef struct { bool cancelled; } iora_token;
+int64_t G_clock; unsigned G_attempts; size_t G_open; uint64_t G_last_sid; bool G_cancel_seen; int G_last_err;
+/* steady_clock::now(): monotone, otherwise arbitrary */
+static inline int64_t iora_now_ms(void) { int64_t d = nondet_i64(); IORA_ASSUME(d >= 0 && d <= ((int64_t)1 << 40) && G_clock <= ((int64_t)1 << 41)); G_clock += d; return G_clock; }
+/* token.isCancelled(): another thread may cancel at any time; cancellation is sticky */
+static inline bool iora_token_isCancelled(iora_token *t) { if (!t->cancelled && nondet_bool()) t->cancelled = 1; if (t->cancelled) G_cancel_seen = 1; return t->cancelled; }
+static inline iora_result ITransport_connectSync(ITransport *self, iora_host h, uint16_t port, int tls, int64_t subTimeout)
+{
+  (void)self; (void)h; (void)port; (void)tls; (void)subTimeout;
+  if (G_attempts < 1000000) G_attempts++;
+  int k = nondet_int();
+  if (k == 0) { G_last_sid = nondet_u64(); G_open++; return iora_result_ok(G_last_sid); }
+  if (k == 1) return iora_result_err(TransportError_Timeout);
+  int c = nondet_int(); IORA_ASSUME(c != TransportError_Timeout); G_last_err = c; return iora_result_err(c);
+}
+#if !defined(IORA_CANARIES)
+#undef IORA_CANARY_LOOP
+#define IORA_CANARY_LOOP(msg) ((void)0)
+#endif
+#define IORA_LOOP_ITransport_connectSyncCancellable_1 IORA_LC( \
+  __CPROVER_assigns(remaining, subTimeout, result, G_clock, G_attempts, G_open, G_last_sid, G_last_err, G_cancel_seen, token->cancelled) \
+  __CPROVER_loop_invariant(G_open == 0 && !result.ok && result.code == TransportError_Timeout && G_attempts >= 1 && G_clock >= 0) \
+  __CPROVER_loop_invariant((token->cancelled == 0 || token->cancelled == 1) && (G_cancel_seen == 0 || G_cancel_seen == 1) && (!G_cancel_seen || token->cancelled)))
